@@ -588,10 +588,10 @@ GB_LOCI = ["AB000001", "X_1", "NC_000913.3"]
 GB_LENGTHS = [1, 9, 10, 11, 59, 60, 61, 120, 121]
 
 
-def genbank_record(locus, seq):
+def genbank_record(locus, seq, mol="DNA"):
     n = len(seq)
     out = [
-        f"LOCUS       {locus:<16}{n:>11} bp    DNA     linear   PLN 08-MAR-2010",
+        f"LOCUS       {locus:<16}{n:>11} bp    {mol:<7} linear   PLN 08-MAR-2010",
         "DEFINITION  generated record.",
         f"ACCESSION   {locus}",
         f"VERSION     {locus}.1",
@@ -614,19 +614,21 @@ def genbank_record(locus, seq):
     return "\n".join(out) + "\n"
 
 
-def check_genbank(acc, recs, eol, final_newline):
+def check_genbank(acc, recs, eol, final_newline, mol="DNA"):
     import io
 
     import cogent3
     from cogent3.parse import genbank
     from cogent3.parse.sequence import PARSERS
 
-    text = "".join(genbank_record(l, s) for l, s in recs)
+    text = "".join(genbank_record(l, s, mol) for l, s in recs)
     if not final_newline:
         text = text[:-1]
     text = text.replace("\n", eol)
     want = [(l, s) for l, s in recs]
     case = {"part": "genbank", "recs": [list(r) for r in recs], "eol": eol, "final_newline": final_newline}
+    if mol != "DNA":
+        case["mol"] = mol
     path = _tmp("g.gb")
     with open(path, "wb") as f:
         f.write(text.encode("utf8"))
@@ -652,7 +654,9 @@ def check_genbank(acc, recs, eol, final_newline):
     for label, _ in forms:
         FAMILY.setdefault(label, "registered")
         acc.case({"form": label, **case}, nontrivial=True)
-    cls = "more than one record" if len(recs) > 1 else "single record"
+    cls = cls_records = "more than one record" if len(recs) > 1 else "single record"
+    if mol != "DNA":
+        cls += f", molecule type {mol} in the LOCUS line"
     fails, results = run_forms("genbank", forms, want, 60, text_class=cls + (", CRLF" if eol == "\r\n" else ""))
     for sig, detail in fails:
         if "raised" in sig:
@@ -672,7 +676,8 @@ def check_genbank(acc, recs, eol, final_newline):
                 acc.count("loader_failures_explained_by_parser_failure")
             else:
                 what = f"raised {g[1]}" if g[0] == "raised" else diff_class(want[:1], [g], 60)[0]
-                acc.fail(f"genbank load_seq(new_type={nt}): {what} [{cls}]", case, {"got": g, "want": want[0]})
+                # with moltype given, load_seq does not look at the LOCUS molecule type: its class is the record count alone
+                acc.fail(f"genbank load_seq(new_type={nt}): {what} [{cls_records}]", case, {"got": g, "want": want[0]})
         acc.outcome(("genbank", "load_seq", nt, g == want[0]))
 
 
@@ -859,6 +864,10 @@ def run_shard(spec, acc):
                     for locus in GB_LOCI:
                         for n in GB_LENGTHS:
                             check_genbank(acc, [(locus, content("dna", 0, n).replace("-", "A").replace("?", "N"))], eol, final)
+                    # what the LOCUS line says about the molecule does not change the letters of the record
+                    for mol in ("mRNA", "ss-DNA", "tRNA"):
+                        for n in (9, 61):
+                            check_genbank(acc, [("AB000001", content("dna", 0, n).replace("-", "A").replace("?", "N"))], eol, final, mol)
                 else:
                     for n1 in GB_LENGTHS:
                         for n2 in GB_LENGTHS:
@@ -878,7 +887,7 @@ def replay(case):
     elif part == "formatters":
         check_formatters_twice(acc)
     elif part == "genbank":
-        check_genbank(acc, [tuple(r) for r in case["recs"]], case["eol"], case["final_newline"])
+        check_genbank(acc, [tuple(r) for r in case["recs"]], case["eol"], case["final_newline"], case.get("mol", "DNA"))
     elif part == "lines":
         text, suffix = case["text"], case["suffix"]
         op = {"": open, ".gz": gzip.open, ".bz2": bz2.open}[suffix]
